@@ -269,6 +269,8 @@ class SerializationMethodVisitor(
                 )
                 for key, tp in discriminator.get_mapping(types).items()
             ]
+            # alternatives are selected with isinstance: subclasses must come first
+            alternatives.sort(key=lambda alt: -len(getattr(alt.cls, "__mro__", ())))
             return UnionMethod(tuple(alternatives), fallback)
 
     def annotated(self, tp: AnyType, annotations: Sequence[Any]) -> SerializationMethod:
